@@ -231,8 +231,8 @@ def map_configs(draw, tree_data, n_cells, factor=None, allow_flatten=True, allow
 @st.composite
 def map_cases(draw, max_levels=4, max_leaves=10, factor=None, allow_flatten=True,
               allow_drop=True, min_top=1, max_cells=12, dtypes=DTYPES, allow_odd=True,
-              family=None, tree=None, max_iter=12, encs=('csr', 'csc', 'dense'), mappers=True):
-    tree_data = tree if tree is not None else draw(trees(max_levels=max_levels, max_leaves=max_leaves,
+              family=None, tree=None, max_iter=12, encs=('csr', 'csc', 'dense'), mappers=True, min_levels=1):
+    tree_data = tree if tree is not None else draw(trees(max_levels=max_levels, max_leaves=max_leaves, min_levels=min_levels,
                                                          allow_odd=allow_odd, min_top=min_top, mappers=mappers))
     ref = draw(ref_specs(tree_data, family=family))
     markers = draw(marker_tables(tree_data, ref['genes']))
